@@ -76,6 +76,14 @@ class NonEqualityUse(Exception):
     """a dimension is used in a branch other than through an equality: the partition domain is not exhaustive"""
 
 
+class NotInvariant(Exception):
+    """a branch condition takes both truth values on shapes with one and the same equality pattern"""
+
+    def __init__(self, cond, w_true, w_false):
+        Exception.__init__(self, cond)
+        self.cond, self.w_true, self.w_false = cond, w_true, w_false
+
+
 class PartEval:
     def __init__(self, prog, cls, binding, depth=0):
         self.prog = prog
@@ -83,6 +91,7 @@ class PartEval:
         self.binding = binding    # arg local -> Mat | Dim | int | None
         self.depth = depth
         self.nonequality = []
+        self.bounded = []
 
     def same(self, a, b):
         return self.cls[a.sym] == self.cls[b.sym]
@@ -98,6 +107,23 @@ class PartEval:
             return None
         if k == 'arg':
             return self.binding.get(t[1])
+        if k == 'local':
+            # multi-definition local (e.g. the result of `a || b`): the last definition along the path being explored
+            trail = getattr(self, 'trail', None)
+            if not trail:
+                return None
+            last = None
+            for bb in trail:
+                blk = f.body.blocks[bb]
+                for s_ in blk.stmts:
+                    if s_.kind == 'assign' and s_.place.is_local() and s_.place.local == t[1]:
+                        last = f.rvalue_term(s_.rv, bb)
+                tm = blk.term
+                if tm.kind == 'call' and tm.dest.is_local() and tm.dest.local == t[1] and bb != trail[-1]:
+                    last = f.call_term(tm, bb)
+            if last is None or last == t:
+                return None
+            return self.value(f, last)
         if k == 'cast':
             return self.value(f, t[2])
         if k == 'field':
@@ -137,6 +163,8 @@ class PartEval:
             if op in ('Eq', 'Ne'):
                 r = self.eq(a, b)
                 if r is None:
+                    if t[4] in ('usize', 'u64', 'i32', 'i64', 'isize', 'u32'):
+                        return self.invariant_value(f, t)
                     return None
                 return r if op == 'Eq' else (not r)
             if op in ('Lt', 'Le', 'Gt', 'Ge') and (isinstance(a, Dim) or isinstance(b, Dim)):
@@ -145,8 +173,10 @@ class PartEval:
                     return {'Lt': True, 'Le': True, 'Gt': False, 'Ge': False}[op]
                 if isinstance(b, int) and not isinstance(b, bool) and b == 0 and isinstance(a, Dim):
                     return {'Lt': False, 'Le': False, 'Gt': True, 'Ge': True}[op]
-                self.nonequality.append(show(t))
-                return None
+                r = self.invariant_value(f, t)
+                if r is None:
+                    self.nonequality.append(show(t))
+                return r
             if op in ('BitAnd', 'BitOr') and isinstance(a, bool) and isinstance(b, bool):
                 return (a and b) if op == 'BitAnd' else (a or b)
             return None
@@ -205,6 +235,120 @@ class PartEval:
             return None
         if isinstance(a, int) and isinstance(b, int):
             return a == b
+        return None
+
+    # ---- conditions outside the equality language: invariance on the partition by small-model enumeration
+    def models(self, bound=5):
+        """all assignments of r1,c1,r2,c2 in 1..bound with exactly the equality pattern of this partition"""
+        import itertools
+        syms = ['r1', 'c1', 'r2', 'c2']
+        out = []
+        for vals in itertools.product(range(1, bound + 1), repeat=4):
+            env = dict(zip(syms, vals))
+            env['one'] = 1
+            ok = True
+            for a in SYMS:
+                for b in SYMS:
+                    if (self.cls[a] == self.cls[b]) != (env[a] == env[b]):
+                        ok = False
+            if ok:
+                out.append(env)
+        return out
+
+    def cint(self, f, t, env, binding=None, depth=0):
+        """concrete integer / bool / list value of a shape term under env (sym -> int); None if not evaluable"""
+        binding = self.binding if binding is None else binding
+        k = tag(t)
+        if k == 'const':
+            return t[2] if isinstance(t[2], (int, bool)) else None
+        if k == 'cast':
+            return self.cint(f, t[2], env, binding, depth)
+        if k == 'arg':
+            v = binding.get(t[1])
+            if isinstance(v, Mat):
+                return ('mat', env[v.r.sym], env[v.c.sym])
+            if isinstance(v, Dim):
+                return env[v.sym]
+            if isinstance(v, tuple) and v and v[0] == 'mat':
+                return v
+            return v if isinstance(v, int) else None
+        if k == 'field':
+            b = self.cint(f, t[1], env, binding, depth)
+            if isinstance(b, tuple) and b and b[0] == 'mat' and t[2] in (1, 2):
+                return b[t[2]]
+            if isinstance(b, list) and t[2] < len(b):
+                return b[t[2]]
+            return None
+        if k == 'index':
+            b = self.cint(f, t[1], env, binding, depth)
+            i = self.cint(f, t[2], env, binding, depth)
+            if isinstance(b, list) and isinstance(i, int) and i < len(b):
+                return b[i]
+            return None
+        if k == 'agg' and t[1] in ('array', 'tuple'):
+            vs = [self.cint(f, x, env, binding, depth) for x in t[3]]
+            return None if any(v is None for v in vs) else vs
+        if k == 'bin':
+            a = self.cint(f, t[2], env, binding, depth)
+            b = self.cint(f, t[3], env, binding, depth)
+            if a is None or b is None or isinstance(a, (list, tuple)) or isinstance(b, (list, tuple)):
+                if t[1] in ('Eq', 'Ne') and isinstance(a, list) and isinstance(b, list):
+                    return (a == b) if t[1] == 'Eq' else (a != b)
+                return None
+            op = t[1]
+            try:
+                if op == 'Add': return a + b
+                if op == 'Sub': return a - b
+                if op == 'Mul': return a * b
+                if op == 'Div': return a // b if b else None
+                if op == 'Rem': return a % b if b else None
+                if op == 'Eq': return a == b
+                if op == 'Ne': return a != b
+                if op == 'Lt': return a < b
+                if op == 'Le': return a <= b
+                if op == 'Gt': return a > b
+                if op == 'Ge': return a >= b
+                if op == 'BitAnd': return bool(a) and bool(b)
+                if op == 'BitOr': return bool(a) or bool(b)
+            except Exception:
+                return None
+            return None
+        if k == 'un' and t[1] == 'Not':
+            a = self.cint(f, t[2], env, binding, depth)
+            return None if a is None else (not a)
+        if k == 'call' and depth < 3:
+            p = t[1]
+            if p == 'linalg::array::matrix::Matrix::shape':
+                m = self.cint(f, t[2][0], env, binding, depth)
+                return [m[1], m[2]] if isinstance(m, tuple) else None
+            if p in self.prog.pdb.bodies:
+                g = self.prog.func(p)
+                rv = g.return_values()
+                if len(rv) == 1 and not g.loop_info():
+                    b2 = {}
+                    for i, x in enumerate(t[2]):
+                        b2[i + 1] = self.cint(f, x, env, binding, depth)
+                    return self.cint(g, rv[0], env, b2, depth + 1)
+            if short(p) in ('clone', 'deref', 'borrow', 'to_owned') and t[2]:
+                return self.cint(f, t[2][0], env, binding, depth)
+        return None
+
+    def invariant_value(self, f, t):
+        """truth value of condition t when it is the same for every small shape with this equality pattern; NotInvariant when two
+        such shapes disagree (then no function of the equality pattern -- in particular not the NumPy rule -- agrees with the code)"""
+        seen = {}
+        for env in self.models():
+            v = self.cint(f, t, env)
+            if not isinstance(v, bool):
+                return None
+            seen.setdefault(v, env)
+            if len(seen) == 2:
+                def shp(e):
+                    return '%dx%d vs %dx%d' % (e['r1'], e['c1'], e['r2'], e['c2'])
+                raise NotInvariant(show(t)[:120], shp(seen[True]), shp(seen[False]))
+        if len(seen) == 1:
+            self.bounded.append(show(t)[:80])
+            return next(iter(seen))
         return None
 
     # ---- matrices
@@ -343,21 +487,36 @@ def run(prog, rep, tier, repo):
             pname = '|'.join(''.join(sorted(b)) if False else ','.join(sorted(b)) for b in sorted(p))
             key = 'partition:%s:{%s}' % (short(fk), pname)
             want = numpy_rule(cls)
+
+            def dependents_undecided(why, want=want, fk=fk, pname=pname):
+                # keep the dependent rules' instance counts: the anchor exists, it is just not decided
+                if want is not None:
+                    rep.undecided('result-shape', 'result-shape:%s:{%s}' % (short(fk), pname), why, proof=False)
+                    rep.undecided('arm-cells', 'arm-cells:%s:{%s}' % (short(fk), pname), why, proof=False)
             ev = PartEval(prog, cls, {1: Mat(Dim('r1'), Dim('c1')), 2: Mat(Dim('r2'), Dim('c2'))})
             try:
                 outs = explore(f, ev)
             except Undecided as e:
                 rep.undecided('classifier-total', key, 'cannot enumerate paths: %s' % e, site_of(f.body))
+                dependents_undecided('dispatch not decided')
                 continue
             except PanicOutcome:
                 outs = [{'kind': 'panic', 'fuzzy': False, 'ret': None, 'bb': 0}]
+            except NotInvariant as e:
+                rep.viol('classifier-total', key, 'the branch condition %s is not determined by the equality pattern of the shapes: it is true for %s and false for %s, '
+                         'two pairs with the same pattern {%s}; the NumPy rule gives both pairs the same verdict, so the code is wrong for one of them' % (
+                             e.cond, e.w_true, e.w_false, pname), site_of(f.body))
+                dependents_undecided('dispatch not a function of the equality pattern')
+                continue
             if ev.nonequality:
                 rep.undecided('classifier-total', key, 'a dimension is used through a non-equality test (%s): the partition '
                               'domain is not exhaustive for this code' % ev.nonequality[0], site_of(f.body))
+                dependents_undecided('dispatch not decided')
                 continue
             kinds = {o['kind'] for o in outs}
             if len(outs) != 1 or any(o['fuzzy'] for o in outs) or 'loop' in kinds:
                 rep.undecided('classifier-total', key, 'dispatch not deterministic under a total oracle: %d paths' % len(outs), site_of(f.body))
+                dependents_undecided('dispatch not decided')
                 continue
             o = outs[0]
             if want is None:
